@@ -649,3 +649,241 @@ Proof.
   - destruct (m_is t r c x), (m_is t r c y); auto. apply perm_swap.
   - now rewrite IH1.
 Qed.
+
+(** ** refinement: the stateful builder produces exactly the specified cells *)
+Definition ext_cell (o : option bcell) (r c : N) (l : list meas) : option bcell :=
+  match o, l with
+  | None, [] => None
+  | _, _ =>
+      let v0 := match o with Some x => bc_vals x | None => [] end in
+      let r0 := match o with Some x => bc_res x | None => [] end in
+      Some (mkBcell r c (v0 ++ map m_v l) (fold_left (fun s x => set_add x s) (map m_res l) r0))
+  end.
+
+Lemma find_cell_keys r c cs x : find_cell r c cs = Some x -> bc_r x = r /\ bc_c x = c.
+Proof.
+  induction cs as [|y cs IH]; cbn; [congruence|].
+  destruct (cell_is r c y) eqn:E; [|auto]. intros [= ->].
+  unfold cell_is in E. apply andb_true_iff in E. now rewrite !N.eqb_eq in E.
+Qed.
+
+Lemma lookup_cell_tab_add ts m t r c :
+  lookup_cell (tab_add m ts) t r c =
+    if m_is t r c m
+    then Some (mkBcell r c
+                 (match lookup_cell ts t r c with Some x => bc_vals x | None => [] end ++ [m_v m])
+                 (match lookup_cell ts t r c with Some x => set_add (m_res m) (bc_res x) | None => [m_res m] end))
+    else lookup_cell ts t r c.
+Proof.
+  rewrite !lookup_cell_tcells, tcells_tab_add, m_is_split.
+  destruct (t =? m_t m)%N; cbn [andb]; [|reflexivity].
+  rewrite find_cell_cell_add. destruct (same_rc r c (m_r m) (m_c m)) eqn:E; [|reflexivity].
+  apply same_rc_true in E as [-> ->]. unfold cvals. reflexivity.
+Qed.
+
+Lemma lookup_cell_fold ms : forall ts t r c,
+  (forall x, lookup_cell ts t r c = Some x -> bc_r x = r /\ bc_c x = c) ->
+  lookup_cell (fold_left (fun ts m => tab_add m ts) ms ts) t r c =
+  ext_cell (lookup_cell ts t r c) r c (filter (m_is t r c) ms).
+Proof.
+  induction ms as [|m ms IH]; intros ts t r c Hk; cbn [fold_left filter].
+  - unfold ext_cell. destruct (lookup_cell ts t r c) as [x|] eqn:E; auto.
+    destruct (Hk x eq_refl) as [<- <-]. cbn. rewrite app_nil_r. now destruct x.
+  - rewrite IH.
+    + rewrite lookup_cell_tab_add. destruct (m_is t r c m) eqn:Em; [|reflexivity].
+      unfold ext_cell. cbn [map fold_left bc_vals bc_res].
+      destruct (lookup_cell ts t r c) as [x|]; cbn [app]; rewrite <- ?app_assoc; reflexivity.
+    + intros x. rewrite lookup_cell_tab_add. destruct (m_is t r c m); [intros [= <-]; auto|apply Hk].
+Qed.
+
+Theorem build_cell_is_spec ms t r c : lookup_cell (build ms) t r c = spec_cell ms t r c.
+Proof.
+  unfold build. rewrite lookup_cell_fold by (cbn; congruence).
+  unfold ext_cell, spec_cell, dedup_first. cbn [lookup_cell find_tab].
+  destruct (filter (m_is t r c) ms); reflexivity.
+Qed.
+
+(** table keys of the built state are exactly the table keys of the measurements *)
+Lemma build_keys_in ms k : In k (map bt_key (build ms)) <-> In k (map m_t ms).
+Proof.
+  unfold build.
+  assert (H : forall ts, In k (map bt_key (fold_left (fun ts m => tab_add m ts) ms ts)) <->
+                         In k (map bt_key ts) \/ In k (map m_t ms)).
+  { induction ms as [|m ms IH]; intros ts; cbn [fold_left map].
+    - cbn. tauto.
+    - rewrite IH. cbn [In]. split.
+      + intros [H|H]; auto. apply tab_add_keys_in in H as [->|H]; auto.
+      + intros [H|[<-|H]]; auto; left.
+        * clear -H. induction ts as [|y ts IHt]; cbn [tab_add map] in *; [contradiction|].
+          destruct (bt_key y =? m_t m)%N; cbn [map bt_key In] in *; tauto.
+        * clear. induction ts as [|y ts IHt]; cbn [tab_add map]; [now left|].
+          destruct (bt_key y =? m_t m)%N eqn:E; cbn [map bt_key In].
+          -- left. now apply N.eqb_eq in E.
+          -- now right. }
+  rewrite H. cbn. tauto.
+Qed.
+
+Lemma find_tab_key k ts tb : find_tab k ts = Some tb -> bt_key tb = k.
+Proof.
+  induction ts as [|y ts IH]; cbn; [congruence|].
+  destruct (bt_key y =? k)%N eqn:E; [intros [= <-]; now apply N.eqb_eq|auto].
+Qed.
+
+Lemma find_tab_some k ts : In k (map bt_key ts) -> exists tb, find_tab k ts = Some tb.
+Proof.
+  induction ts as [|y ts IH]; cbn; [tauto|].
+  destruct (bt_key y =? k)%N eqn:E; [eauto|]. intros [H|H]; [apply N.eqb_neq in E; congruence|auto].
+Qed.
+
+(** cells of the spec table: lookup by key is spec_cell *)
+Lemma find_cell_app r c a b :
+  find_cell r c (a ++ b) = match find_cell r c a with Some x => Some x | None => find_cell r c b end.
+Proof. induction a as [|x a IH]; cbn; auto. destruct (cell_is r c x); auto. Qed.
+
+Lemma spec_cell_keys ms t r c x : spec_cell ms t r c = Some x -> bc_r x = r /\ bc_c x = c.
+Proof. unfold spec_cell. destruct (filter _ ms); [congruence|]. intros [= <-]. auto. Qed.
+
+Lemma find_cell_opt r c r' c' ms t :
+  find_cell r c (opt_to_list (spec_cell ms t r' c')) =
+  if same_rc r' c' r c then spec_cell ms t r' c' else None.
+Proof.
+  destruct (spec_cell ms t r' c') as [x|] eqn:E; cbn.
+  - destruct (spec_cell_keys _ _ _ _ _ E) as [<- <-]. unfold cell_is, same_rc.
+    destruct ((bc_r x =? r)%N && (bc_c x =? c)%N); reflexivity.
+  - now destruct (same_rc r' c' r c).
+Qed.
+
+Lemma find_cell_spec_row ms t r c r' cols :
+  find_cell r c (flat_map (fun cl => opt_to_list (spec_cell ms t r' cl)) cols) =
+  if (r' =? r)%N && existsb (N.eqb c) cols then spec_cell ms t r c else None.
+Proof.
+  induction cols as [|c' cols IH]; cbn [flat_map existsb].
+  - now rewrite andb_false_r.
+  - rewrite find_cell_app, find_cell_opt, IH. unfold same_rc.
+    destruct (N.eqb_spec r' r) as [->|Hr]; cbn [andb].
+    + rewrite (N.eqb_sym c c'). destruct (N.eqb_spec c' c) as [->|Hc]; cbn [orb].
+      * destruct (spec_cell ms t r c); auto. now destruct (existsb (N.eqb c) cols).
+      * reflexivity.
+    + reflexivity.
+Qed.
+
+Lemma find_cell_spec_tab ms t r c :
+  find_cell r c (bt_cells (spec_tab ms t)) = spec_cell ms t r c.
+Proof.
+  unfold spec_tab. cbn [bt_cells].
+  set (mt := filter (fun m => (m_t m =? t)%N) ms).
+  assert (Hgen : forall rows,
+    find_cell r c (flat_map (fun r0 => flat_map (fun cl => opt_to_list (spec_cell ms t r0 cl)) (dedup (map m_c mt))) rows) =
+    if existsb (N.eqb r) rows && existsb (N.eqb c) (dedup (map m_c mt)) then spec_cell ms t r c else None).
+  { induction rows as [|r' rows IH]; cbn [flat_map existsb]; auto.
+    rewrite find_cell_app, find_cell_spec_row, IH. rewrite (N.eqb_sym r r').
+    destruct (r' =? r)%N; cbn [andb orb].
+    - destruct (existsb (N.eqb c) (dedup (map m_c mt))); cbn [andb].
+      + destruct (spec_cell ms t r c); auto. now rewrite andb_true_r; destruct (existsb (N.eqb r) rows).
+      + now rewrite andb_false_r.
+    - reflexivity. }
+  rewrite Hgen.
+  destruct (spec_cell ms t r c) as [x|] eqn:E; [|now destruct (_ && _)].
+  (* the cell exists, so r and c are among the rows and columns of t *)
+  unfold spec_cell in E. destruct (filter (m_is t r c) ms) as [|m l] eqn:Ef; [congruence|].
+  assert (Hm : In m (filter (m_is t r c) ms)) by (rewrite Ef; now left).
+  apply filter_In in Hm as [Hin Hm]. unfold m_is in Hm.
+  apply andb_true_iff in Hm as [Hm Hc]. apply andb_true_iff in Hm as [Ht Hr].
+  apply N.eqb_eq in Ht, Hr, Hc.
+  assert (Hmt : In m mt) by (apply filter_In; split; auto; now apply N.eqb_eq).
+  assert (H1 : existsb (N.eqb r) (dedup (map m_r mt)) = true).
+  { apply existsb_exists. exists r. split; [|apply N.eqb_refl]. apply dedup_in. rewrite <- Hr. now apply in_map. }
+  assert (H2 : existsb (N.eqb c) (dedup (map m_c mt)) = true).
+  { apply existsb_exists. exists c. split; [|apply N.eqb_refl]. apply dedup_in. rewrite <- Hc. now apply in_map. }
+  now rewrite H1, H2.
+Qed.
+
+(** key sets: rows/cols of the built table and of the spec table coincide *)
+Lemma cells_rows_iff (cs : list bcell) r : In r (map bc_r cs) <-> exists c x, find_cell r c cs = Some x.
+Proof.
+  induction cs as [|y cs IH]; cbn [map In find_cell].
+  - split; [tauto|]. intros [c [x H]]. discriminate.
+  - split.
+    + intros [<-|H].
+      * exists (bc_c y), y. unfold cell_is. now rewrite !N.eqb_refl.
+      * apply IH in H as [c [x H]]. exists c. destruct (cell_is r c y) eqn:E; eauto.
+    + intros [c [x H]]. destruct (cell_is r c y) eqn:E.
+      * left. unfold cell_is in E. apply andb_true_iff in E as [E _]. now apply N.eqb_eq in E.
+      * right. apply IH. eauto.
+Qed.
+
+Lemma cells_cols_iff (cs : list bcell) c : In c (map bc_c cs) <-> exists r x, find_cell r c cs = Some x.
+Proof.
+  induction cs as [|y cs IH]; cbn [map In find_cell].
+  - split; [tauto|]. intros [r [x H]]. discriminate.
+  - split.
+    + intros [<-|H].
+      * exists (bc_r y), y. unfold cell_is. now rewrite !N.eqb_refl.
+      * apply IH in H as [r [x H]]. exists r. destruct (cell_is r c y) eqn:E; eauto.
+    + intros [r [x H]]. destruct (cell_is r c y) eqn:E.
+      * left. unfold cell_is in E. apply andb_true_iff in E as [_ E]. now apply N.eqb_eq in E.
+      * right. apply IH. eauto.
+Qed.
+
+Section Refinement.
+  Variables rank_t rank_r rank_c : N -> N.
+  Variable centre : list b64 -> b64.
+  Variable geomean : list b64 -> b64.
+  Hypothesis inj_r : forall a b, rank_r a = rank_r b -> a = b.
+  Hypothesis inj_c : forall a b, rank_c a = rank_c b -> a = b.
+  Hypothesis inj_t : forall a b, rank_t a = rank_t b -> a = b.
+
+  (** two cell lists that answer every lookup alike give the same output table *)
+  Lemma table_out_ext k cs cs' :
+    (forall r c, find_cell r c cs = find_cell r c cs') ->
+    table_out rank_r rank_c centre geomean (mkBtab k cs) = table_out rank_r rank_c centre geomean (mkBtab k cs').
+  Proof.
+    intros Hf. unfold table_out. cbn [bt_cells bt_key].
+    assert (Hr : rows_of rank_r cs = rows_of rank_r cs').
+    { unfold rows_of. apply sort_by_perm_invariant; auto using dedup_nodup.
+      apply NoDup_Permutation; auto using dedup_nodup. intros r. rewrite !dedup_in, !cells_rows_iff.
+      split; intros [c [x H]]; exists c, x; congruence. }
+    assert (Hc : cols_of rank_c cs = cols_of rank_c cs').
+    { unfold cols_of. apply sort_by_perm_invariant; auto using dedup_nodup.
+      apply NoDup_Permutation; auto using dedup_nodup. intros c. rewrite !dedup_in, !cells_cols_iff.
+      split; intros [r [x H]]; exists r, x; congruence. }
+    rewrite <- Hr, <- Hc. f_equal.
+    - unfold cells_out. f_equal. apply flat_map_ext. intros r. apply map_ext. intros c.
+      unfold mk_ocell. rewrite <- Hf. destruct (find_cell r c cs); auto.
+      destruct (cols_of rank_c cs) as [|c0 ?]; auto. now rewrite <- Hf.
+    - destruct (cols_of rank_c cs) as [|c0 rest]; auto. apply map_ext. intros [i c].
+      unfold col_summary.
+      assert (E1 : forall rows, filter (has_cell cs c0) rows = filter (has_cell cs' c0) rows).
+      { intros rows. apply filter_ext. intros r. unfold has_cell. now rewrite Hf. }
+      rewrite E1.
+      assert (E2 : forall b rows acc, fold_left (sum_step centre cs c0 c b) rows acc
+                                    = fold_left (sum_step centre cs' c0 c b) rows acc).
+      { intros b. induction rows as [|r rows IHr]; intros acc; cbn [fold_left]; auto.
+        rewrite IHr. f_equal. unfold sum_step. destruct acc as [[s q] bad]. rewrite <- !Hf. reflexivity. }
+      rewrite E2. reflexivity.
+  Qed.
+
+  (** the tables benchstat builds are the specified tables, for every input *)
+  Theorem build_meets_spec ms :
+    to_tables rank_t rank_r rank_c centre geomean (build ms) =
+    spec_tables rank_t rank_r rank_c centre geomean ms.
+  Proof.
+    unfold to_tables, spec_tables.
+    assert (Hkeys : sort_by rank_t (map bt_key (build ms)) = sort_by rank_t (dedup (map m_t ms))).
+    { destruct (build_wf ms) as [Hnd _]. apply sort_by_perm_invariant; auto.
+      apply NoDup_Permutation; auto using dedup_nodup. intros k. now rewrite dedup_in, build_keys_in. }
+    rewrite Hkeys.
+    assert (Hall : forall k, In k (sort_by rank_t (dedup (map m_t ms))) ->
+              option_map (table_out rank_r rank_c centre geomean) (find_tab k (build ms)) =
+              Some (table_out rank_r rank_c centre geomean (spec_tab ms k))).
+    { intros k Hk. apply (Permutation_in _ (sort_by_perm rank_t _)) in Hk. rewrite dedup_in in Hk.
+      rewrite <- build_keys_in in Hk. destruct (find_tab_some _ _ Hk) as [tb Htb]. rewrite Htb. cbn [option_map].
+      f_equal. pose proof (find_tab_key _ _ _ Htb) as Hkey. destruct tb as [k' cs]. cbn in Hkey. subst k'.
+      unfold spec_tab at 1. apply table_out_ext. intros r c.
+      change (flat_map _ _) with (bt_cells (spec_tab ms k)).
+      rewrite find_cell_spec_tab, <- build_cell_is_spec. unfold lookup_cell. now rewrite Htb. }
+    revert Hall. generalize (sort_by rank_t (dedup (map m_t ms))). intros l Hall.
+    induction l as [|k l IH]; cbn [map somes]; auto.
+    rewrite Hall by now left. cbn [somes]. f_equal. apply IH. intros k' Hk'. apply Hall. now right.
+  Qed.
+End Refinement.
